@@ -7,8 +7,9 @@ import codec
 
 MODEL_TARGETS = ["model/De.vo", "spec/Denote.vo", "spec/Encoding.vo"]
 COQ_TARGETS = ["props/C03.vo"]
-THEOREMS = [("C03", ["C03_complete", "C03_long", "C03_long_is_crate", "C03_unbounded_refuted"])]
-PROOF_FILES = ["proofs/DeProofs.v", "proofs/VarintProofs.v", "props/C03.v"]
+THEOREMS = [("C03", ["C03_complete", "C03_long", "C03_long_is_crate", "C03_unbounded_refuted", "C03_sound", "C03_malformed_rejected", "C03_boolean_byte",
+                     "C03_invalid_utf8", "C03_union_index", "C03_enum_index", "C03_negative_length", "C03_premature_end", "C03_premature_end_varint"])]
+PROOF_FILES = ["proofs/DeProofs.v", "proofs/VarintProofs.v", "proofs/DeSoundBase.v", "proofs/DeSoundMain.v", "proofs/DeSoundReject.v", "proofs/DeSoundProofs.v", "proofs/DeSafetyProofs.v", "props/C03.v"]
 TRUSTED_BASE = [
     "Coq 8.16.1 kernel; no axioms (Print Assumptions: closed)",
     "spec/{AvroValue,Encoding,Denote}.v written from the Avro specification (values, conformance, every legal block layout, expected callbacks); extracted as the oracle",
@@ -17,7 +18,7 @@ TRUSTED_BASE = [
 ]
 ASSUMPTIONS = [
     "C03_complete needs lengths/counts/indices below 2^63 (they are written as longs): counts_fit and the length bound; the unbounded statement is refuted (C03_unbounded_refuted)",
-    "soundness (Ok implies a valid encoding was consumed) is not proved; malformed inputs are judged on the crate: targeted malformations must give Err, and model = crate on random mutations",
+    "soundness is proved for the dynamically typed consumer (C03_sound: Ok implies the reading of a conforming value whose relaxed encoding was consumed; C03_malformed_rejected and the five direct corollaries); the relaxations -- over-long varints up to 10 bytes, unchecked byte size after a negative block count, any decimal sign extension incl. zero bytes -- are accepted by the crate and shown by witnesses; typed-target soundness is proved for scalar / enum / duration nodes and otherwise decided by the run",
     "str::from_utf8 is modelled by the Unicode well-formedness table (model/Utf8.v); rust_decimal Display by decimal_to_string",
 ]
 
